@@ -42,7 +42,8 @@ Definition look_defs : list (level * N) :=
                                         | Some l => map (fun p => (l, p)) [0; 1; 2]
                                         | None => [] end) lk_tbls) lk_dbs.
 
-(* grants of one account in order; (before, after) per lookup of look_defs; role edges of the state (admin before, after) *)
+(* grants of one account in order; (before, after) per lookup of look_defs; role edges of the state (admin before, after): the model
+   says the flag survives, so the two must agree *)
 Definition case : Type := (list (level * list N) * list (bool * bool) * list (bool * bool))%type.
 
 Fixpoint cmp (ps ps' : psE) (defs : list (level * N)) (obs : list (bool * bool)) : bool :=
@@ -55,7 +56,7 @@ Fixpoint cmp (ps ps' : psE) (defs : list (level * N)) (obs : list (bool * bool))
 Definition ok (c : case) : bool :=
   let '(gs, looks, eds) := c in
   let ps := apply_grants gs in
-  cmp ps (load_ps (ser_ps ps)) look_defs looks && forallb (fun ba => Bool.eqb (snd ba) false) eds.
+  cmp ps (load_ps (ser_ps ps)) look_defs looks && forallb (fun ba => Bool.eqb (fst ba) (snd ba)) eds.
 
 Definition mismatches (cs : list (N * case)) : list N :=
   map fst (filter (fun p => negb (ok (snd p))) cs).
